@@ -108,11 +108,7 @@ def run(ctx):
     ctx.floor("R10.3", "TTL insert call sites", n_reg, 1)
     # a TTL added / changed / removed through the upsert must reach the index too (shared with C08 R08.3)
     import c08
-    sub = type(ctx)(ctx.prop, ctx.facts, ctx.tier, ctx.config)
-    sub.no_share = True
-    if not getattr(ctx, 'no_share', False):
-        c08.run(sub)
-    for o in sub.obligations:
+    for o in ctx.own_of("c08"):
         if o["rule"] == "R08.3" and "classification-drives-index" in o["key"]:
             ctx._add(o["status"], "R10.3", o["key"].split("|", 1)[1], o["desc"] + " [an expiry stored by an upsert that is not registered is never swept]", o["where"], o["detail"])
 
@@ -176,9 +172,7 @@ def insert_params(F, g):
 
 def c09_boundary(ctx):
     """R10.7 = R09.6"""
-    sub = type(ctx)(ctx.prop, ctx.facts, ctx.tier, ctx.config)
-    c09.run(sub)
-    for o in sub.obligations:
+    for o in ctx.own_of("c09"):
         if o["rule"] == "R09.6":
             ctx._add(o["status"], "R10.7", o["key"].split("|", 1)[1], o["desc"], o["where"], o["detail"])
 
@@ -237,9 +231,7 @@ def no_overwrite(ctx, RULE):
     """hooks remove store entries by key: that hits the right incarnation only if a store insert never overwrites
     an existing entry (C05 R05.3)"""
     import c05
-    sub = type(ctx)(ctx.prop, ctx.facts, ctx.tier, ctx.config)
-    c05.run(sub)
-    for o in sub.obligations:
+    for o in ctx.own_of("c05"):
         if o["rule"] == "R05.3":
             ctx._add(o["status"], RULE, o["key"].split("|", 1)[1],
                      o["desc"] + " [needed here because the eviction/expiry hooks remove the store entry by key: an overwritten entry would make a stale id remove a newer incarnation]", o["where"], o["detail"])
